@@ -1353,8 +1353,12 @@ impl DhtNetworkManager {
         best_nodes.push(self.local_dht_node());
         self.mark_self_queried(&mut queried_nodes);
 
-        // Start with local knowledge
-        let initial = self.find_closest_nodes_local(key, count).await;
+        // Start with everything we know locally (closest first). Seeding only `count`
+        // entries would leave the remaining known peers unqueried whenever some of
+        // the closest ones fail to answer.
+        let initial = self
+            .find_closest_nodes_local(key, MAX_CANDIDATE_NODES)
+            .await;
         let mut candidates: VecDeque<DHTNode> = VecDeque::new();
         for node in initial {
             queued_peer_ids.insert(node.peer_id.clone());
